@@ -430,6 +430,9 @@ def r6_encoding_identity(ctx):
         ctx.ob(f.where, "the elements' codes are joined in list order and labelled with that common encoding; row lengths are the elements' lengths", ok, c, key="C06-R6|list-join")
 
 
+from ..through_time import make_rule as _mk_tt
+_through_time = _mk_tt("C06")
+
 RULES = [
     ("C06-R5", r5_stale_shape),
     ("C06-R1", r1_accepted_bytes),
@@ -439,6 +442,7 @@ RULES = [
     ("C06-R4", r4_shape_plumbing),
     ("C06-R6", r6_encoding_identity),
     ("C06-R7", _assigned_values_encoded),
+    ("C06-T1", _through_time),
 ]
 
 
